@@ -48,6 +48,89 @@ impl PartialOrd<Wp> for Vp {
     }
 }
 
+/// Zero-sized elements whose comparison is NOT trivially true: `Zn` is never equal to anything (like
+/// SQL NULL), `Zl == Zr` is false, `Zo` is an ordinary always-equal unit.
+#[derive(Clone, Copy, Debug)]
+pub struct Zn;
+impl PartialEq for Zn {
+    fn eq(&self, _: &Zn) -> bool {
+        false
+    }
+}
+impl PartialOrd for Zn {
+    fn partial_cmp(&self, _: &Zn) -> Option<Ordering> {
+        None
+    }
+}
+#[derive(Clone, Copy, Debug)]
+pub struct Zl;
+#[derive(Clone, Copy, Debug)]
+pub struct Zr;
+impl PartialEq<Zr> for Zl {
+    fn eq(&self, _: &Zr) -> bool {
+        false
+    }
+}
+impl PartialOrd<Zr> for Zl {
+    fn partial_cmp(&self, _: &Zr) -> Option<Ordering> {
+        Some(Ordering::Less)
+    }
+}
+#[derive(Clone, Copy, Debug, PartialEq, PartialOrd)]
+pub struct Zo;
+
+fn zbuild<const N: usize, T: Copy>(rot: usize, len: usize, x: T) -> CircularBuffer<N, T> {
+    let mut b = CircularBuffer::<N, T>::new();
+    if N > 0 {
+        for _ in 0..rot % N {
+            b.push_back(x);
+            b.pop_front();
+        }
+    }
+    for _ in 0..len.min(N) {
+        b.push_back(x);
+    }
+    b
+}
+
+/// comparisons between buffers of zero-sized elements must still follow the elements' own comparison
+pub fn zst_compare_case<const N: usize, const M: usize>(la: usize, ra: usize, lb: usize, rb: usize) -> Vec<String> {
+    let mut probs = vec![];
+    let (la, lb) = (la.min(N), lb.min(M));
+    // never-equal elements: equal only if both empty
+    let a: CircularBuffer<N, Zn> = zbuild(ra, la, Zn);
+    let b: CircularBuffer<M, Zn> = zbuild(rb, lb, Zn);
+    let va = vec![Zn; la];
+    let vb = vec![Zn; lb];
+    if (a == b) != (va == vb) || (a != b) == (va == vb) {
+        probs.push(format!("never-equal zero-sized elements: buffers compare {} but slices compare {}", a == b, va == vb));
+    }
+    if (a == vb[..]) != (va == vb) {
+        probs.push("never-equal zero-sized elements: buffer == slice differs from slice == slice".to_string());
+    }
+    if a.partial_cmp(&b) != va.partial_cmp(&vb) {
+        probs.push(format!("incomparable zero-sized elements: partial_cmp gives {:?}, slices give {:?}", a.partial_cmp(&b), va.partial_cmp(&vb)));
+    }
+    // cross-type
+    let l: CircularBuffer<N, Zl> = zbuild(ra, la, Zl);
+    let r: CircularBuffer<M, Zr> = zbuild(rb, lb, Zr);
+    let want = la == 0 && lb == 0;
+    if (l == r) != want {
+        probs.push(format!("zero-sized Zl == Zr is always false, but buffers of lengths {} and {} compare {}", la, lb, l == r));
+    }
+    let want_ord = if la == 0 && lb == 0 { Some(Ordering::Equal) } else if la == 0 { Some(Ordering::Less) } else if lb == 0 { Some(Ordering::Greater) } else { Some(Ordering::Less) };
+    if l.partial_cmp(&r) != want_ord {
+        probs.push(format!("zero-sized Zl < Zr always, but buffers of lengths {} and {} give {:?}", la, lb, l.partial_cmp(&r)));
+    }
+    // ordinary always-equal unit: equal iff same length
+    let x: CircularBuffer<N, Zo> = zbuild(ra, la, Zo);
+    let y: CircularBuffer<M, Zo> = zbuild(rb, lb, Zo);
+    if (x == y) != (la == lb) || x.partial_cmp(&y) != la.partial_cmp(&lb) {
+        probs.push(format!("unit elements: lengths {} and {} give == {} and {:?}", la, lb, x == y, x.partial_cmp(&y)));
+    }
+    probs
+}
+
 /// reference: lexicographic comparison of two sequences under a partial order
 fn lex(a: &[u8], b: &[u8]) -> Option<Ordering> {
     for i in 0..a.len().min(b.len()) {
@@ -165,6 +248,12 @@ pub fn pair_case<const N: usize, const M: usize>(l: &Operand, r: &Operand) -> Ve
         }
         if (a < b) != (want_ord == Some(Ordering::Less)) || (a >= b) != matches!(want_ord, Some(Ordering::Greater | Ordering::Equal)) {
             probs.push("operators < / >= disagree with the lexicographic order".to_string());
+        }
+        if (a > b) != (want_ord == Some(Ordering::Greater)) || (a <= b) != matches!(want_ord, Some(Ordering::Less | Ordering::Equal)) {
+            probs.push("operators > / <= disagree with the lexicographic order".to_string());
+        }
+        if (a > bw) != (want_ord == Some(Ordering::Greater)) || (a <= bw) != matches!(want_ord, Some(Ordering::Less | Ordering::Equal)) || (a < bw) != (want_ord == Some(Ordering::Less)) || (a >= bw) != matches!(want_ord, Some(Ordering::Greater | Ordering::Equal)) {
+            probs.push("cross-type operators < <= > >= disagree with the lexicographic order".to_string());
         }
         // slice / array / reference forms
         let mut bv: Vec<Wp> = r.contents.iter().map(|c| Wp(*c)).collect();
@@ -306,6 +395,27 @@ pub fn run_pairs<const N: usize, const M: usize>(o: &Opts, rep: &mut Report) {
             }
         }
     }
+    if o.shard.0 == 0 {
+        for la in 0..=N {
+            for lb in 0..=M {
+                for ra in 0..N.max(1) {
+                    for rb in 0..M.max(1) {
+                        let probs = zst_compare_case::<N, M>(la, ra, lb, rb);
+                        rep.transitions += 1;
+                        rep.evaluations += 1;
+                        rep.validated += 1;
+                        for p in probs {
+                            rep.violation(Violation {
+                                sig: format!("N={}:M={}:zst-compare:{}", N, M, p.split(':').next().unwrap_or("").replace(' ', "_")),
+                                detail: format!("N={} M={} zero-sized elements, lengths {} / {}, rotations {} / {}: {}", N, M, la, lb, ra, rb, p),
+                                replay: ReplayCase { n: N, ctor: "boxed".into(), recipe: "".into(), filling: "none".into(), act: "zst-pair".into(), fault: "none".into(), extra: format!("{}|{}|{}|{}|{}", M, la, ra, lb, rb) },
+                            });
+                        }
+                    }
+                }
+            }
+        }
+    }
     rep.action(&format!("pairs-{}x{}", N, M));
     if let (Some(l), Some(r)) = (ls.last(), rs.get(rs.len() / 2)) {
         let s = format!(
@@ -399,6 +509,40 @@ pub fn replay_c13(c: &Case) -> Result<i32, String> {
             4 => d!(4),
             5 => d!(5),
             6 => d!(6),
+            _ => return Err("unsupported N".into()),
+        };
+        for p in &probs {
+            println!("VIOLATION REPRODUCED: {}", p);
+        }
+        return Ok(if probs.is_empty() { 0 } else { 1 });
+    }
+    if c.act == "zst-pair" {
+        let v: Vec<usize> = c.extra.split('|').map(|x| x.parse().ok()).collect::<Option<Vec<_>>>().ok_or("bad zst pair")?;
+        if v.len() != 5 {
+            return Err("bad zst pair".into());
+        }
+        macro_rules! z2 {
+            ($n:literal) => {
+                match v[0] {
+                    0 => zst_compare_case::<$n, 0>(v[1], v[2], v[3], v[4]),
+                    1 => zst_compare_case::<$n, 1>(v[1], v[2], v[3], v[4]),
+                    2 => zst_compare_case::<$n, 2>(v[1], v[2], v[3], v[4]),
+                    3 => zst_compare_case::<$n, 3>(v[1], v[2], v[3], v[4]),
+                    4 => zst_compare_case::<$n, 4>(v[1], v[2], v[3], v[4]),
+                    5 => zst_compare_case::<$n, 5>(v[1], v[2], v[3], v[4]),
+                    6 => zst_compare_case::<$n, 6>(v[1], v[2], v[3], v[4]),
+                    _ => return Err("unsupported M".into()),
+                }
+            };
+        }
+        let probs = match n {
+            0 => z2!(0),
+            1 => z2!(1),
+            2 => z2!(2),
+            3 => z2!(3),
+            4 => z2!(4),
+            5 => z2!(5),
+            6 => z2!(6),
             _ => return Err("unsupported N".into()),
         };
         for p in &probs {
